@@ -82,6 +82,7 @@ func init() {
 		add(fmt.Sprintf("L%d[0]=fresh", l), 'm', 0, 0, l)
 		add(fmt.Sprintf("L%d=append(L%d,fresh)", l, l), 'p', 0, 0, l)
 		add(fmt.Sprintf("L%d=append(L%d,NaN)", l, l), 'q', 0, 0, l)
+		add(fmt.Sprintf("L%d=append(L%d,nil)", l, l), 'r', 0, 0, l)
 	}
 }
 
@@ -391,6 +392,11 @@ func c20Run(c *mon.Case, ops string) {
 				v, r := s.freshElem()
 				s.lists[op.arg] = append(s.lists[op.arg], r)
 				s.lmod[op.arg] = append(s.lmod[op.arg], v)
+			case 'r':
+				// a list position that holds no variant at all: it stays that way (growing the array pads with nulls
+				// behind it, it does not fill it in)
+				s.lists[op.arg] = append(s.lists[op.arg], nil)
+				s.lmod[op.arg] = append(s.lmod[op.arg], Val{T: "nil"})
 			case 'q':
 				v := vDouble(math.NaN())
 				s.lists[op.arg] = append(s.lists[op.arg], v.Variant())
@@ -398,7 +404,7 @@ func c20Run(c *mon.Case, ops string) {
 			case 'e':
 				// the slot is overwritten with a new object that holds an equal value; the array must now hold THAT
 				// object: changing it in place shows in this array and in no other variant
-				if s.real[i] == nil || s.model[i].val.T != "A" || s.model[i].tainted || len(s.model[i].val.E) == 0 || s.model[i].val.E[0].T == "A" {
+				if s.real[i] == nil || s.model[i].val.T != "A" || s.model[i].tainted || len(s.model[i].val.E) == 0 || s.model[i].val.E[0].T == "A" || s.model[i].val.E[0].T == "nil" {
 					skip = true
 					return
 				}
@@ -473,6 +479,14 @@ func buildC20(cfg *mon.Config) []*mon.Sub {
 				c.Failf("variant built from a host value does not report the matching type and value", "%s: NewVariant(%T %v) -> %s, want %s", hc.name, hc.host, hc.host, got, hc.want)
 				return
 			}
+			if t, ok := hc.host.(time.Time); ok {
+				// a time comes back as the very value that went in (also one read from the clock, which carries a monotonic reading),
+				// whichever constructor took it
+				if back := v.AsDateTime(); back != t || !variants.VariantFromDateTime(t).Equals(v) || !v.Equals(variants.VariantFromDateTime(t)) {
+					c.Failf("variant built from a host value does not report the matching type and value", "%s: NewVariant(time %v).AsDateTime() == original: %v; equals VariantFromDateTime of the same value: %v", hc.name, t, back == t, variants.VariantFromDateTime(t).Equals(v))
+					return
+				}
+			}
 			var e1, e2 bool
 			if p := mon.Try(func() { e1 = v.Equals(v.Clone()); e2 = v.Clone().Equals(v) }); p != nil {
 				c.FailPanic("Variant.Equals", p)
@@ -486,7 +500,7 @@ func buildC20(cfg *mon.Config) []*mon.Sub {
 	depth := cfg.N(4, 5)
 	exh := &mon.Sub{
 		Name:          "operation-sequences-exhaustive",
-		Rule:          fmt.Sprintf("every sequence of %d operations over %d concrete operations on three live variants and two caller-side lists (construct from 8 host values, SetAsArray/VariantFromArray from a caller list, Assign (also of a variant to itself), Clone, NewVariant(variant), SetByIndex at 0/len/len+2, SetByIndex(0) with an equal value in a new object followed by an in-place change of that object, SetLength, Clear, SetAsInteger, caller-side list element replacement and append (fresh integers and NaN); after every step all live variants are read back (type, accessor, Length, elements, IsNull, IsEmpty) and compared with the value model, Equals is evaluated on all pairs (total, symmetric, equal to model equality), a clone must equal its original; non-trivial = the sequence built an array", depth, len(c20Ops)),
+		Rule:          fmt.Sprintf("every sequence of %d operations over %d concrete operations on three live variants and two caller-side lists (construct from 8 host values, SetAsArray/VariantFromArray from a caller list, Assign (also of a variant to itself), Clone, NewVariant(variant), SetByIndex at 0/len/len+2, SetByIndex(0) with an equal value in a new object followed by an in-place change of that object, SetLength, Clear, SetAsInteger, caller-side list element replacement and append (fresh integers, NaN, and a position holding no variant at all); after every step all live variants are read back (type, accessor, Length, elements, IsNull, IsEmpty) and compared with the value model, Equals is evaluated on all pairs (total, symmetric, equal to model equality), a clone must equal its original; non-trivial = the sequence built an array", depth, len(c20Ops)),
 		Exhaustive:    true,
 		DistinctByGen: true,
 		Floor:         1000,
@@ -619,6 +633,7 @@ type cmpStruct struct{ A, B int }
 
 func c20HostCases() []hostCase {
 	t1 := time.Date(1975, 4, 8, 1, 2, 3, 4, time.FixedZone("", 7200))
+	now := time.Now()
 	l := []*variants.Variant{variants.VariantFromInteger(1), variants.VariantFromString("a")}
 	hc := []hostCase{
 		{"nil", nil, vNull()},
@@ -631,7 +646,7 @@ func c20HostCases() []hostCase {
 		{"float64 tiny", math.SmallestNonzeroFloat64, vDouble(math.SmallestNonzeroFloat64)}, {"float64 NaN", math.NaN(), vDouble(math.NaN())}, {"float64 -Inf", math.Inf(-1), vDouble(math.Inf(-1))},
 		{"bool true", true, vBool(true)}, {"bool false", false, vBool(false)},
 		{"string empty", "", vStr("")}, {"string unicode", "é😀", vStr("é😀")},
-		{"time", t1, vTime(t1)}, {"time zero", time.Time{}, vTime(time.Time{})},
+		{"time", t1, vTime(t1)}, {"time zero", time.Time{}, vTime(time.Time{})}, {"time read from the clock", now, vTime(now)}, {"time read from the clock, UTC", now.UTC(), vTime(now.UTC())},
 		{"duration", 90 * time.Second, vSpan(90 * time.Second)}, {"duration min", time.Duration(math.MinInt64), vSpan(math.MinInt64)},
 		{"list", l, vArr(vInt(1), vStr("a"))}, {"empty list", []*variants.Variant{}, vArr()},
 		{"variant", variants.VariantFromLong(9), vLong(9)}, {"array variant", variants.VariantFromArray(l), vArr(vInt(1), vStr("a"))},
